@@ -12,12 +12,12 @@ Proof.
   - destruct a, b; simpl; try discriminate; auto.
     + intros H. apply content_eqb_iff in H. congruence.
     + intros H. apply andb_prop in H as [H1 H2]. apply Bool.eqb_prop in H1. apply content_eqb_iff in H2. congruence.
-    + intros H. apply N.eqb_eq in H. congruence.
+    + intros H. apply andb_prop in H as [H H3]. apply andb_prop in H as [H H2]. apply N.eqb_eq in H. apply Bool.eqb_prop in H2, H3. congruence.
     + destruct f, f0; simpl; try discriminate; auto.
   - intros <-. destruct a; simpl; auto.
     + apply content_eqb_iff; auto.
     + rewrite Bool.eqb_reflx. apply content_eqb_iff; auto.
-    + apply N.eqb_refl.
+    + rewrite N.eqb_refl, !Bool.eqb_reflx. reflexivity.
     + destruct f; reflexivity.
 Qed.
 
